@@ -339,6 +339,7 @@ def main():
                                                 'truncated', 'wall_s', 'escalated')} for r in rtc_results],
         'bounded_note': 'bounded jobs are stand-ins / cross-checks; they contribute nothing to "discharged"',
         'canaries': canaries,
+        'definitional_clauses': sorted({d for r in recs for d in (r.get('stats') or {}).get('definitions', [])})[:20],
         'model_replays': model_replays,
         'evaluations': max(evals, 1) if rtc_results else n_ob,
         'distinct_nontrivial': nontriv if rtc_results else len({o['name'] for o in obligations}),
